@@ -864,6 +864,11 @@ func getAllSegmentsInAggs(queryInfo *QueryInformation, qsrs []*QuerySegmentReque
 		return nil, 0, 0, err
 	}
 
+	if numDropped, _ := countUnrotatedDuplicates(unrotatedQSR, rotatedQSR); numDropped > 0 {
+		finalQsrs = dropUnrotatedDuplicates(finalQsrs, rotatedQSR)
+		numRawSearch -= numDropped
+	}
+
 	if config.IsS3Enabled() {
 		rotatedSegments := getRotatedSegments(rotatedQSR)
 		if hook := hooks.GlobalHooks.AddUsageForRotatedSegmentsHook; hook != nil {
@@ -1050,6 +1055,45 @@ func applyAggOpOnSegments(sortedQSRSlice []*QuerySegmentRequest, allSegFileResul
 	return finalSstMap
 }
 
+// The unrotated and the rotated segments are listed one after the other, not atomically.
+// A segment that is rotated in between is in both lists (it is added to the rotated
+// metadata before it is removed from the unrotated info, so that it is never in neither).
+// It must be searched only once: keep the rotated entry and drop the unrotated one.
+// Returns the number of unrotated raw/stats requests and unrotated PQS requests that are duplicates.
+func countUnrotatedDuplicates(unrotatedQSR []*QuerySegmentRequest, rotatedQSR []*QuerySegmentRequest) (uint64, uint64) {
+	if len(unrotatedQSR) == 0 || len(rotatedQSR) == 0 {
+		return 0, 0
+	}
+
+	rotatedSegKeys := getRotatedSegments(rotatedQSR)
+	numRaw := uint64(0)
+	numPQS := uint64(0)
+	for _, qsr := range unrotatedQSR {
+		if _, ok := rotatedSegKeys[qsr.segKey]; ok {
+			if qsr.sType == structs.UNROTATED_PQS {
+				numPQS++
+			} else {
+				numRaw++
+			}
+		}
+	}
+
+	return numRaw, numPQS
+}
+
+// Removes the unrotated requests for segments that are also in rotatedQSR
+func dropUnrotatedDuplicates(unrotatedQSR []*QuerySegmentRequest, rotatedQSR []*QuerySegmentRequest) []*QuerySegmentRequest {
+	rotatedSegKeys := getRotatedSegments(rotatedQSR)
+	retVal := make([]*QuerySegmentRequest, 0, len(unrotatedQSR))
+	for _, qsr := range unrotatedQSR {
+		if _, ok := rotatedSegKeys[qsr.segKey]; !ok {
+			retVal = append(retVal, qsr)
+		}
+	}
+
+	return retVal
+}
+
 func getRotatedSegments(qsrs []*QuerySegmentRequest) map[string]struct{} {
 	usedSegments := make(map[string]struct{})
 	for _, qsr := range qsrs {
@@ -1078,6 +1122,12 @@ func getAllSegmentsInQuery(queryInfo *QueryInformation, sTime time.Time) ([]*Que
 	rotatedQSR, rotatedRawCount, rotatedPQS, err := getAllRotatedSegmentsInQuery(queryInfo, sTime)
 	if err != nil {
 		return nil, 0, 0, 0, err
+	}
+
+	if droppedRaw, droppedPQS := countUnrotatedDuplicates(unrotatedQSR, rotatedQSR); droppedRaw+droppedPQS > 0 {
+		unsortedQsrs = dropUnrotatedDuplicates(unsortedQsrs, rotatedQSR)
+		numRawSearch -= droppedRaw
+		numPQS -= droppedPQS
 	}
 
 	if config.IsS3Enabled() {
